@@ -138,7 +138,7 @@ def correspondence(rep, rng, tier):
             cases.append(c)
     # a kind / family / signal number with ONE flag bit on top (socket types carry SOCK_NONBLOCK / SOCK_CLOEXEC on some hosts):
     # the known readers and the candidate decoders on every (position, small number, bit 8..31)
-    flagged = sorted(set(ENUM_READERS) | (candidates() if rep.broken or tier != 'quick' else set()))
+    flagged = sorted(set(ENUM_READERS) | set(candidates() if rep.broken or tier != 'quick' else ()))
     for n in flagged:
         if n not in D.all_handler_names():
             continue
